@@ -137,6 +137,13 @@ def o_frames_expected(out, a, ctx):
     toks = out.split()
     if a.get("stop", True) and (not toks or toks[-1] != "STOP"):
         return "iteration did not end with a clean stop: " + out[-80:]
+    if "errors" in a:
+        # every error report (handler call / log entry / raised error) must be accounted for by an item of the
+        # stream that cannot be decoded (zero- / one-byte payloads); foreign-protocol items and noise are skipped silently
+        ne = sum(1 for t in toks if t.startswith("H:") or t.startswith("R:"))
+        if ne != a["errors"]:
+            return "%d error reports (%s) on a well-formed mixed stream, expected %d" % (
+                ne, ",".join(t for t in toks if t[:2] in ("H:", "R:"))[:80], a["errors"])
     if "handlers" in a:
         h = sum(1 for t in toks if t.startswith("H:"))
         if h != a["handlers"]:
@@ -917,7 +924,8 @@ def cases_C02(ctx):
         q = rng.choice([0, 1, 1, 2])
         kind = rng.choice(["file", "file", "buffered", "socket"])
         shape = ",".join(sorted(set(desc)))
-        orc = ("frames_expected", {"frames": frames, "stop": True})
+        nerr = 0 if q == 0 else desc.count("zero") + desc.count("one")
+        orc = ("frames_expected", {"frames": frames, "stop": True, "errors": nerr})
         if kind == "socket":
             segs = gens.partitions(rng, data, rng.choice(["random", "one", "bytes"]) if len(data) < 300 else "random")
             line = "rsock 1 %d 1 1 1 0 %d %s -" % (q, rng.choice([1, 7, 4096]), recv_tok(segs))
